@@ -1,3 +1,5 @@
 import FlatModel.Props.C01
+import FlatModel.Props.Universe
 #print axioms FC.C08.after_clear
 #print axioms FC.C08.sim_pushes
+#print axioms FC.Universe.C08_every_composition
